@@ -33,7 +33,10 @@ type Options struct {
 	WCrash, WSnapshot, WConfigChange, WTransfer, WRead, WPropose, WPartition int
 	HealRounds                                                               int // election timeouts of fair schedule after the fault prefix (C17)
 	NoFaults                                                                 bool
-	Porcupine                                                                bool // cross-check the history with porcupine
+	// NoDupReadIndex: never duplicate a ReadIndex request message (heartbeats,
+	// responses and everything else may still be duplicated)
+	NoDupReadIndex bool
+	Porcupine      bool // cross-check the history with porcupine
 }
 
 type flight struct {
@@ -301,7 +304,7 @@ func (s *Sim) Step() {
 	}
 	o := &s.opt
 	alive := s.aliveIDs()
-	wTick, wStep, wApply, wDeliver := 20, 26, 14, 32
+	wTick, wStep, wApply, wDeliver := 10, 34, 16, 30
 	wDrop, wDup, wCrash, wPart := 0, 0, 0, 0
 	switch s.phase {
 	case phLossy:
@@ -332,9 +335,16 @@ func (s *Sim) Step() {
 		x -= w
 	}
 	switch act {
-	case 0: // tick
-		if r := s.pick(alive); r != nil {
-			r.inbox = append(r.inbox, pb.Message{Type: pb.LocalTick})
+	case 0: // tick: usually the clock of every replica advances, sometimes of one (skew)
+		if s.rng.Intn(4) == 0 {
+			if r := s.pick(alive); r != nil {
+				r.inbox = append(r.inbox, pb.Message{Type: pb.LocalTick})
+			}
+		} else {
+			for _, id := range alive {
+				r := s.replicas[id]
+				r.inbox = append(r.inbox, pb.Message{Type: pb.LocalTick})
+			}
 		}
 	case 1: // step
 		if r := s.pick(alive); r != nil {
@@ -353,11 +363,12 @@ func (s *Sim) Step() {
 		if r := s.pick(alive); r != nil {
 			s.guard(r, "apply", func() { r.apply() })
 		}
-	case 3: // deliver
-		if len(s.net) > 0 {
+	case 3: // deliver a few messages
+		k := 1 + s.rng.Intn(2*len(s.order)+1)
+		for ; k > 0 && len(s.net) > 0; k-- {
 			// mostly the oldest messages, sometimes any (reordering, delay)
 			i := 0
-			reorder := 8
+			reorder := 10
 			if s.phase == phLossy || s.phase == phMixed {
 				reorder = 3
 			}
@@ -374,7 +385,11 @@ func (s *Sim) Step() {
 		}
 	case 5: // duplicate
 		if len(s.net) > 0 {
-			s.deliverAt(s.rng.Intn(len(s.net)), true)
+			i := s.rng.Intn(len(s.net))
+			if s.opt.NoDupReadIndex && s.net[i].m.Type == pb.ReadIndex {
+				break
+			}
+			s.deliverAt(i, true)
 		}
 	case 6:
 		s.actPropose(s.pick(alive))
